@@ -219,6 +219,7 @@ class C10(Prop):
         edges = set()
         slot_of = {}
         guards = {}
+        called = set()
         for k in range(len(case.events)):
             b = lines.get(k)
             if b is None:
@@ -236,8 +237,12 @@ class C10(Prop):
                 if kind == "c" and case.suite == "locks" and case.field("root"):
                     # a probe is called under a cell that guards it (hypothesis of callbacks_serialised): all its
                     # callbacks share a held cell — but the greeting of a behaviour subject, which goes to an
-                    # observer no other thread can know yet
-                    if not held:
+                    # observer no other thread can know yet: since fix ebc132b it is made with NO cell held (the value
+                    # is read out first); exempt is exactly the FIRST callback ever of a subscriber, inside the
+                    # `subscribe` event that creates it
+                    greeting = "subscribe" in case.events[k] and n not in called
+                    called.add(n)
+                    if not held and not greeting:
                         return {"kind": "callback-unguarded", "event": k,
                                 "detail": f"callback of subscriber {n} with no cell held: {b}"}
                     if "subscribe" not in case.events[k]:
